@@ -1462,6 +1462,10 @@ class NormalDerivative(DiffOperator):
             if coeffs:
                 a = Mul(*coeffs)
 
+            if not vectors:
+                # a product of constant coefficients only: its normal derivative / jump vanishes
+                return S.Zero
+
             b = S.One
             if vectors:
                 try:
@@ -1534,6 +1538,10 @@ class Jump(BasicOperator):
             a = S.One
             if coeffs:
                 a = Mul(*coeffs)
+
+            if not vectors:
+                # a product of constant coefficients only: its normal derivative / jump vanishes
+                return S.Zero
 
             b = S.One
             if vectors:
